@@ -4,6 +4,6 @@ cd "$(dirname "$0")/.." || exit 2
 TIER=${1:-quick}
 for id in $(python3 -c "import json;print(' '.join(c['property_id'] for c in json.load(open('MANIFEST.json'))['checks']))"); do
   start=$(date +%s)
-  bin/check $id --tier $TIER > /tmp/run_all_${TIER}_$id.log 2>&1; rc=$?
-  echo "$id rc=$rc $(( $(date +%s) - start ))s $(tail -1 /tmp/run_all_${TIER}_$id.log)"
+  bin/check $id --tier $TIER > /tmp/run_all_${TIER}_${id}_${VERIF_SEED:-0}.log 2>&1; rc=$?
+  echo "$id rc=$rc $(( $(date +%s) - start ))s $(tail -1 /tmp/run_all_${TIER}_${id}_${VERIF_SEED:-0}.log)"
 done
